@@ -1,13 +1,13 @@
-\* thorough: three groups, three signings, deeper horizon
+\* thorough: deeper horizon, two signing periods
 CONSTANTS
   Addr = {"a1", "a2", "a3"}
   Payer = {"p1"}
-  MaxG = 3
-  MaxSig = 3
+  MaxG = 2
+  MaxSig = 2
   MemberMenu = {{"a1", "a2"}, {"a2", "a3"}}
   MinDur = 1
   MaxDur = 3
-  PeriodSet = {1, 3}
+  PeriodSet = {1, 2}
   CreateSet = {2}
   FeeSet = {1}
   DtSet = {1}
